@@ -159,6 +159,7 @@ func runC02(w *World, tier string) (bool, interface{}) {
 	c := NewCluster(w, n)
 	c.L.Faults.ShortReads = w.Tape.Bool(1, 2, "shortReads")
 	c.L.Faults.PermuteResults = true
+	c.L.Faults.BoardDownAtSubmit = w.Tape.Bool(1, 2, "boardOutages") // single submissions refused by the board; operators submit again
 	members := AllMembers(n)
 	byz := -1
 	mode := 0
